@@ -200,12 +200,34 @@ def gen_percent():
     return "\n".join(out)
 
 
+def gen_delta():
+    out = [HEADER.format(src="LanguageTotalsDelta.py, ScanTotalsDelta.py, ScanTotals.py"),
+           "From Verif Require Import Base.\nOpen Scope Z_scope.\n"]
+    L = "codelimit/common/LanguageTotalsDelta.py"
+    al = {"self._language_totals_current": "cur", "self._language_totals_previous": "prev"}
+    for m in ("files", "functions", "loc", "hard_to_maintain", "unmaintainable"):
+        out.append(t_func(L, f"LanguageTotalsDelta.{m}", f"ltd_{m}",
+                          [("cur", "LanguageTotals"), ("prev", "option LanguageTotals")], "pystr",
+                          aliases=al, option_exprs=["self._language_totals_previous"]))
+    S = "codelimit/common/ScanTotalsDelta.py"
+    for m in ("total_files", "total_functions", "total_loc", "total_hard_to_maintain", "total_unmaintainable"):
+        out.append(t_func(S, f"ScanTotalsDelta.{m}", f"std_{m}", [("cur", "Z"), ("prev", "Z")], "pystr",
+                          aliases={f"self._scan_totals_current.{m}()": "cur", f"self._scan_totals_previous.{m}()": "prev"}))
+    T = "codelimit/common/ScanTotals.py"
+    vals = {"self._languages_totals.values()": "values"}
+    out.append(t_func(T, "ScanTotals.languages_totals", "languages_totals", [("values", "list LanguageTotals")],
+                      "list LanguageTotals", aliases=vals))
+    for m in ("total_files", "total_functions", "total_loc", "total_hard_to_maintain", "total_unmaintainable"):
+        out.append(t_func(T, f"ScanTotals.{m}", f"st_{m}", [("values", "list LanguageTotals")], "Z", aliases=vals))
+    return "\n".join(out)
+
+
 def gen_patterns():
     import capture
     return capture.gen_patterns()
 
 
-TARGETS = {"GenThresholds": gen_thresholds, "GenPatterns": gen_patterns, "GenPercent": gen_percent}
+TARGETS = {"GenThresholds": gen_thresholds, "GenPatterns": gen_patterns, "GenPercent": gen_percent, "GenDelta": gen_delta}
 
 
 def main(names=None):
